@@ -90,6 +90,23 @@ fn main() {
             let plan = plan_or_die(&rf.property, rf.tier);
             std::process::exit(run::replay_case(&plan, &rf.engine, &rf.case, quiet));
         }
+        "fuzz-import" => {
+            // tv fuzz-import --property P --job J <artifact>: turn a libFuzzer artifact into a replay file
+            let prop = arg(&args, "--property").expect("--property");
+            let job: usize = arg(&args, "--job").and_then(|s| s.parse().ok()).unwrap_or(0);
+            let file = args.last().expect("artifact").clone();
+            let data = std::fs::read(&file).expect("read artifact");
+            let plan = plan_or_die(&prop, Tier::Thorough);
+            let jobs: Vec<&rt::run::Job> = plan.jobs.iter().filter(|j| j.flavour == "all" && j.engine.enum_len().is_none()).collect();
+            let j = jobs[job % jobs.len()];
+            let case = rt::case::ByteCase::from_bytes(&data, j.engine.params_len(), j.engine.ops_range().1);
+            let path = rt::run::verif_root().join("replays").join(format!("{}-fuzz-{:012x}.case", prop, case.hash64() & 0xffff_ffff_ffff));
+            let _ = std::fs::create_dir_all(path.parent().unwrap());
+            let txt = format!("property={}\ntier=thorough\nflavour=all\nengine={}\ncase={}\nsig=libfuzzer-artifact\n# from {}\n", prop, j.engine.name(), case.to_hex(), file);
+            std::fs::write(&path, txt).expect("write replay");
+            println!("{}", path.display());
+            std::process::exit(run::replay_case(&plan, &j.engine.name(), &case, true));
+        }
         "child" => {
             let what = args.get(2).map(|s| s.as_str()).unwrap_or("");
             match what {
